@@ -17,7 +17,7 @@ from . import evalcorr
 from . import gen
 
 HEADER = ('Require Import Cirbo.Model.Base Cirbo.Model.Gate Cirbo.Model.Circuit Cirbo.Model.History '
-          'Cirbo.Model.Cnf Cirbo.Model.TseytinAlg Cirbo.Model.TseytinCases.\nOpen Scope Z_scope.')
+          'Cirbo.Model.Cnf Cirbo.Model.TseytinAlg Cirbo.Model.TseytinCases.')
 CASE_TYPE = 'tseytin_case'
 TEMPLATE_CASE_TYPE = 'template_case'
 MAX_ENUM_AUX = 14
@@ -52,7 +52,8 @@ def run_tseytin(dump, outs, capture=False):
             raw = m.tseytin_transformation(c, None if outs is None else list(outs)).get_raw()
             r = ('ok', [list(cl) for cl in raw])
         except RecursionError:
-            raise
+            # CPython's recursion limit on a cyclic netlist; the model's recursion runs out of fuel
+            r = ('err', 'OutOfFuel')
         except Exception as e:  # noqa: BLE001
             r = ('err', ct.err_name(e))
     finally:
@@ -79,13 +80,26 @@ def random_selection(rng, n_out, p_invalid=0.08):
 
 
 def malform(rng, dump):
-    """a netlist outside the well-formed domain: dangling operand, too few / too many operands"""
+    """a netlist outside the well-formed domain: dangling operand, too few / too many operands, an INPUT gate
+    missing from / repeated in the input list, a cycle (RecursionError in Python = OutOfFuel in the model)"""
     gates = [list(g) for g in dump['gates']]
+    d = dict(dump)
+    kind = rng.choice(['dangling', 'short', 'long', 'empty', 'hidden_input', 'dup_input', 'cycle'])
+    if kind in ('hidden_input', 'dup_input'):
+        if not d['inputs']:
+            return dump
+        i = rng.choice(d['inputs'])
+        ins = list(d['inputs'])
+        if kind == 'hidden_input':
+            ins.remove(i)
+        else:
+            ins.insert(rng.randrange(len(ins) + 1), i)
+        d['inputs'] = ins
+        return d
     cand = [g for g in gates if g[1] != 'INPUT']
     if not cand:
         return dump
     g = rng.choice(cand)
-    kind = rng.choice(['dangling', 'short', 'long', 'empty'])
     if kind == 'dangling':
         g[2] = list(g[2]) + ['no_such_gate']
         if rng.random() < 0.5:
@@ -94,10 +108,16 @@ def malform(rng, dump):
         g[2] = list(g[2])[:-1]
     elif kind == 'empty':
         g[2] = []
+    elif kind == 'cycle':
+        # g becomes its own (transitive) operand: through itself or through one of its users
+        users = [u for u in gates if g[0] in u[2] and u[1] != 'INPUT']
+        via = rng.choice(users)[0] if users and rng.random() < 0.6 else g[0]
+        g[2] = list(g[2]) + [via]
+        if rng.random() < 0.5:
+            rng.shuffle(g[2])
     else:
         # an extra operand that cannot close a cycle: an input (or a repetition of an own operand)
         g[2] = list(g[2]) + [rng.choice(list(dump['inputs']) or list(g[2]) or ['no_such_gate'])]
-    d = dict(dump)
     d['gates'] = [tuple(x) for x in gates]
     if not d['outputs'] or rng.random() < 0.7:
         d['outputs'] = list(d['outputs']) + [g[0]]
@@ -134,6 +154,42 @@ def fixed_corpus():
     return [{'circuit': d, 'outs': None} for d in out]
 
 
+def _gate_choices(avail, nary_arities):
+    out = []
+    for t in gen.NARY:
+        for k in nary_arities:
+            out += [(t, list(ops)) for ops in itertools.product(avail, repeat=k)]
+    for t in gen.UNARY:
+        out += [(t, [o]) for o in avail]
+    for t in gen.BINARY:
+        out += [(t, list(ops)) for ops in itertools.product(avail, repeat=2)]
+    for t in gen.CONST:
+        out.append((t, []))
+    return out
+
+
+def exhaustive_small(two_gates):
+    """ALL netlists over inputs a, b with one gate g1 (n-ary arity 2..3), or with g1 (n-ary arity 2) and
+    g2 over {a, b, g1} (n-ary arity 2..3); output = the last gate"""
+    ins = ['a', 'b']
+    base = [(i, 'INPUT', []) for i in ins]
+
+    def dump(gs):
+        users = {}
+        for l, _, ops in gs:
+            for o in ops:
+                users.setdefault(o, []).append(l)
+        return {'inputs': list(ins), 'outputs': [gs[-1][0]], 'gates': base + gs,
+                'users': list(users.items()), 'blocks': []}
+    if not two_gates:
+        for t, ops in _gate_choices(ins, (2, 3)):
+            yield {'circuit': dump([('g1', t, ops)]), 'outs': None}
+        return
+    for t1, ops1 in _gate_choices(ins, (2,)):
+        for t2, ops2 in _gate_choices(ins + ['g1'], (2, 3)):
+            yield {'circuit': dump([('g1', t1, ops1), ('g2', t2, ops2)]), 'outs': None}
+
+
 def make_case(rng, dump, outs):
     return {'circuit': dump, 'outs': outs, 'raw': list(run_tseytin(dump, outs))}
 
@@ -151,11 +207,12 @@ def z(n):
 
 
 def zlist(l):
-    return ct.lst(z(x) for x in l)
+    return ct.lst(z(x) for x in l) + '%Z'
 
 
 def cnf_term(raw):
-    return ct.lst(zlist(cl) for cl in raw)
+    # one scope delimiter for the whole nested list: numerals inside are read in Z_scope
+    return ct.lst(ct.lst(z(x) for x in cl) for cl in raw) + '%Z'
 
 
 def case_term(case):
@@ -185,7 +242,7 @@ def template_cases(rng, n_per_template):
 
 
 def template_case_term(tc):
-    return f'({ct.s(tc["name"])}, {z(tc["top"])}, {zlist(tc["lits"])}, {ct.res(tuple(tc["res"]), cnf_term)})'
+    return f'({ct.s(tc["name"])}, {z(tc["top"])}%Z, {zlist(tc["lits"])}, {ct.res(tuple(tc["res"]), cnf_term)})'
 
 
 # ------------------------------------------------------------------ the direct oracle
@@ -200,6 +257,29 @@ def selected_labels(dump, outs):
             return None
         sel.append(o[i])
     return sel
+
+
+def acyclic(dump):
+    gates = {k: ops for k, _, ops in dump['gates']}
+    state = {}
+    for root in gates:
+        stack = [(root, iter(gates[root]))]
+        if root in state:
+            continue
+        state[root] = 1
+        while stack:
+            l, it = stack[-1]
+            nxt = next(it, None)
+            if nxt is None:
+                state[l] = 2
+                stack.pop()
+            elif nxt in gates:
+                if state.get(nxt) == 1:
+                    return False
+                if nxt not in state:
+                    state[nxt] = 1
+                    stack.append((nxt, iter(gates[nxt])))
+    return True
 
 
 def _unit_propagate(clauses, units):
@@ -331,7 +411,7 @@ def oracle(case, check_circuit_sat=True):
     if len(set(dump['inputs'])) != len(dump['inputs']) or len({g[0] for g in dump['gates']}) != len(dump['gates']):
         return None
     sel = selected_labels(dump, outs)
-    if sel is None:
+    if sel is None or not acyclic(dump):
         return None
     ins = list(dump['inputs'])
     if len(ins) > MAX_INPUTS:
@@ -452,7 +532,9 @@ def shrink(case, msg):
             best, best_msg = c, m
     # bypass gates: make an operand of the output cone the output instead; drop unused inputs
     changed = True
-    while changed:
+    rounds = 0
+    while changed and rounds < 200:
+        rounds += 1
         changed = False
         d = best['circuit']
         gates = {k: (t, ops) for k, t, ops in d['gates']}
